@@ -80,6 +80,8 @@ class C09(Pipeline):
         "after the hostile block the pigeons keep doing their duty every block (sign, estimate, report relay errors, attest, batch estimates / confirmations, balance / reference block evidence) and users keep sending jobs, transfers and claims every 20 blocks; successful remote executions (transaction proofs) are not produced, relays are reported as failed and retried by the chain",
         "quick tier: every catalogue entry at one (height class, stage) pair rotating with the entry, plus every stage at height class m303 for the kinds whose values reach the end blockers; heights 300 / 303 are crossed when the hostile height is <= 303; thorough tier: a seeded sample of the full product, every run continued to the next multiple of 300 and 303; the periods of 10 000 blocks (reference block requests, purge of stale user contracts) are not reached",
         "histories without a hostile entry: stages reportedpad / relayed (delivery report nobody attests), split (2 validators against 1), newval (evidence only from a validator created by a user a few blocks earlier, in no snapshot) are run on in mode noattest (pigeons sign / estimate / do batch work, nobody provides evidence) to height 610, past the pruning of the reported messages at height 600; worlds big (powers 50/40/30/30, validator 0's pigeon never runs) and solo (one validator, pigeon never runs) are prepared from genesis like the standard world and run for 120 blocks; a block of a world preparation that aborts is reported as the Prepare step's abort",
+        "version gate: the spec closes the gate (and demands the halt) when the running software is semantically older than the completed upgrade OR belongs to another [major].[minor] line than it (x/paloma's documented intent: 'app needs to be in the [major].[minor] space' - a binary of another line is the wrong software for the chain state); a newer patch level of the same line must never be stopped. Versions are compared as numbers per component (patch 10 > 9 > 6, 100 > 20), a pre-release is older than its release; the running version is set through cosmos-sdk/version.Version before the application of that history is created, the completed upgrade through x/upgrade's done marker with a registered handler",
+        "matching relay transactions: the compass call of the queued message packed with the compass ABI that ships with the repository (reduced to submit_logic_call, deploy_contract, update_valset and the ContractDeployed event), the valset of the snapshot named in the delivery report and all signatures, signed by the relayer's external key; receipts are built by the driver (tag 'receipt': empty, malformed, failed status, no logs, a log without topics before compass' event, foreign logs first, 400 logs, undecodable event data, 4 topics)",
         "governance actions other than chain removal and the version gate are not enumerated (their parameters are set by governance, not by a transaction sender)",
     ]
 
@@ -155,8 +157,7 @@ class C09(Pipeline):
 
     def match_known(self, finding, failure):
         """match = {names: [monitors], entries: [{kind/param/class or act ... , optional stage}], optional stack_contains (text that must occur in the
-        recorded stack of the failing event), optional gate_newer_major_minor (Gate histories whose running software has a HIGHER major.minor
-        than the completed upgrade)}"""
+        recorded stack of the failing event)}"""
         m = finding.get("match", {})
         if failure["name"] not in m.get("names", []):
             return False
@@ -164,8 +165,6 @@ class C09(Pipeline):
         ev = failure["event"] or {}
         if "stack_contains" in m and m["stack_contains"] not in (ev.get("stack") or ""):
             return False
-        if m.get("gate_newer_major_minor"):
-            return a.get("act") == "Gate" and list(a["app"]["v"][:2]) > list(a["gov"]["v"][:2])
         for alt in m.get("entries", []):
             if all(a.get(k) == v for k, v in alt.items()):
                 return True
@@ -253,12 +252,25 @@ class C09(Pipeline):
         return c
 
     def binding_selftest(self, events, tier):
+        """A failing self-test makes a CLEAN run inconclusive; it never hides violations (see execute)."""
+        out = self._binding_selftest(events, tier)
+        if out is not None and not out.get("ok", True):
+            self._vacuity.append("binding self-test failed: %s" % out)
+            out = dict(out, ok=True, failed=True)
+        return out
+
+    def _binding_selftest(self, events, tier):
         byh = {}
         for e in events:
             byh.setdefault(e["h"], []).append(e)
         good = next((evs for evs in byh.values() if len(evs) == 3 and evs[1]["act"] == "Hostile" and evs[1]["res"] == "accepted" and evs[2]["res"] == "ok"), None)
-        gate = next((evs for evs in byh.values() if any(e["act"] == "Gate" for e in evs) and any(e["act"] == "Run" and e["res"] == "abort" for e in evs)), None)
-        opengate = next((evs for evs in byh.values() if any(e["act"] == "Gate" for e in evs) and any(e["act"] == "Run" and e["res"] == "ok" for e in evs)), None)
+        def gpair(evs):
+            g = [e for e in evs if e["act"] == "Gate"]
+            return (tuple(g[0]["args"]["app"]["v"]), g[0]["args"]["app"]["pre"], tuple(g[0]["args"]["gov"]["v"]), g[0]["args"]["gov"]["pre"]) if g else None
+        # inputs of the self-test (not verdicts): a pair whose running software is plainly older, and an equal pair
+        gate = next((evs for evs in byh.values() if gpair(evs) and gpair(evs)[1] == "" and gpair(evs)[3] == "" and gpair(evs)[0][:2] == gpair(evs)[2][:2] and gpair(evs)[0] < gpair(evs)[2]
+                     and any(e["act"] == "Run" and e["res"] == "abort" for e in evs)), None)
+        opengate = next((evs for evs in byh.values() if gpair(evs) and gpair(evs)[:2] == gpair(evs)[2:] and any(e["act"] == "Run" and e["res"] == "ok" for e in evs)), None)
         if good is None or gate is None:
             return {"ok": False, "why": "no accepted-and-survived history / no gate history"}
         out = {}
